@@ -9,9 +9,10 @@ def atoms_of(c):
     return [l for l in c["body"] if l["k"] == "atom"]
 
 def versions(P, c):
-    """number of delta versions of clause c = number of body atoms in the head's stratum (>=1 for non-recursive)"""
+    """number of delta versions of clause c = number of body atoms in the head's stratum; 0 = non-recursive clause,
+    for which ExecutionPlanChecker refuses a plan"""
     st = next(s for s in P["strata"] if c["head"]["rel"] in s)
-    return max(1, sum(1 for a in atoms_of(c) if a["rel"] in st))
+    return sum(1 for a in atoms_of(c) if a["rel"] in st)
 
 def planned(P, rng, full):
     Q = copy.deepcopy(P)
